@@ -220,13 +220,22 @@ def gen_seq_spec(rng):
     conc = rng.randint(2, 8)
     total = rng.randint(conc, 26)
     metric_style = rng.choice(["grid", "float", "float", "trend", "tiny", "neartie", "neartie"])
+    # in a share of the scripts the metric values are reported as numpy scalars (as simulators / blackbox tables / in-process
+    # drivers do); the values are exactly representable in the type: dyadic k/64 for float32, integers for int64 / int32
+    metric_dtype = rng.choice(["py", "py", "py", "float64", "float32", "float32", "int64", "int32"])
+    if metric_dtype == "float32":
+        metric_style = "dyadic"
+    elif metric_dtype in ("int64", "int32"):
+        metric_style = "grid"
     ops = []  # abstract script, made concrete while running (depends on decisions)
-    spec.update(concurrent=conc, total=total, metric_style=metric_style, steps=rng.randint(20, 160),
+    spec.update(concurrent=conc, total=total, metric_style=metric_style, metric_dtype=metric_dtype, steps=rng.randint(20, 160),
                 script_seed=rng.randint(0, 10 ** 9))
     return spec
 
 
 def metric_value(rng, style, t, r):
+    if style == "dyadic":    # exactly representable in float32 (and float16)
+        return rng.randint(0, 128) / 64.0
     if style == "tiny":      # losses of magnitude 1e-9: differences far above round-off, far below any absolute tolerance
         return rng.uniform(0.1, 1.0) * 1e-9
     if style == "neartie":   # values agreeing to ~5 significant digits (relative differences 1e-6 .. 1e-5), some exact ties
@@ -427,7 +436,7 @@ def run_sequence_gen(ctx, spec, events=None, clock=None):
     def do_report(tid, r, m):
         tr = trials.get(tid) or U.mk_trial(tid, {"x": 0.5})
         try:
-            dec = S.sch.on_trial_result(tr, {"epoch": r, "m": m})
+            dec = S.sch.on_trial_result(tr, {"epoch": r, "m": U.cast_metric(m, spec.get("metric_dtype"))})
         except KeyError:
             if last_dec.get(tid) == "CONTINUE" and r >= 1:
                 violations.append(("on_trial_result(trial %d, resource %d) raised KeyError although the trial is running" % (tid, r),
@@ -773,7 +782,8 @@ def run(ctx, replay=None):
                 "1..4 forced through scheduler.bracket_distribution, shared or per-bracket rung systems, 2..8 concurrent "
                 "trials with interleaved, occasionally skipped / repeated / late / unknown-trial reports, dill round trips "
                 "of the scheduler (model: restore_state), remove / "
-                "complete / error calls; plus interleaved twin experiments (two independent schedulers with >= 2 brackets alive "
+                "complete / error calls, metric values reported as Python floats or numpy float64 / float32 / int64 / int32 scalars; "
+                "plus interleaved twin experiments (two independent schedulers with >= 2 brackets alive "
                 "in one process, events interleaved, same trial numbering, each against its own reference and model instance); "
                 "non-trivial = a script with a decision at a rung holding >= 2 entries; "
                 "distinct by content hash")
@@ -826,6 +836,7 @@ def run(ctx, replay=None):
         ctx.count(("sequence", spec, case["kind"]), nontrivial=res["n_nontrivial"] > 0)
         ctx.h("seq_type", spec["type"])
         ctx.h("seq_max_t_via", spec.get("max_t_via", "arg"))
+        ctx.h("seq_metric_dtype", spec.get("metric_dtype", "py"))
         ctx.h("seq_dill_round_trips", sum(1 for e in res["events"] if e["op"] == "restore"))
         ctx.h("seq_brackets", "%d%s" % (res["num_brackets"], "pb" if spec.get("per_bracket") else ""))
         ctx.h("seq_rf", spec.get("reduction_factor", "incr" if "rung_increment" in spec else "explicit"))
